@@ -31,16 +31,19 @@ def wait_for_fd(R, prog):
         unpause = lambda ev: ev.kind == 'call' and ev.callee() == 'photon::thread_pause_work_stealing' and ev.f.const(ev.e['args'][0]) == 0
         seen = an.SeenTracker([('added', add), ('removed', rm, ()), ('slept', sleep), ('paused', pause), ('unpaused', unpause, ('paused',))])
         res = an.run(G, [seen, an.GuardTracker(lambda k: True)])
+        # `ret` = the local that holds the results of add_interest and of the sleep; `err` = the ERRNO snapshot
+        CN = K.canon({'ret': K.one(K.locals_assigned_from_call(f, r'::add_interest$') & K.locals_assigned_from_call(f, r'^photon::thread_usleep$'), 'result local', f),
+                      'err': K.local_of_type(f, r'(^|::)ERRNO$')})
         K.check_at(R, P + '.K7', G, res, lambda ev: ev.kind == 'return' and ev.depth == 0 and ev.f.const(ev.e['sub']) == -1,
                    require=lambda st, ev: 'S:slept' not in st or 'S:removed' in st,
                    key_fn=lambda ev, short=short: '%s.K7:%s::wait_for_fd:failing-exit-removes-interest' % (P, short),
                    describe=lambda ev: 'after the sleep, -1 is returned only after rm_interest (no stale thread pointer stays armed)', min_sites=2, what='return -1')
         K.check_at(R, P + '.K6', G, res, lambda ev: ev.kind == 'return' and ev.depth == 0 and ev.f.const(ev.e['sub']) == 0 and True,
-                   require=lambda st, ev: 'S:slept' not in st or ('G:ret == -1=T' in st and any(re.match(r'^G:err\.no == \d+=T$', k) or re.match(r'^G:err\.no=F$', k) for k in st)),
+                   require=lambda st, ev: 'S:slept' not in st or ('G:ret == -1=T' in CN(st) and any(re.match(r'^G:err\.no == \d+=T$', k) or re.match(r'^G:err\.no=F$', k) for k in CN(st))),
                    key_fn=lambda ev, short=short: '%s.K6:%s::wait_for_fd:success-only-for-EOK-wakeup' % (P, short),
                    describe=lambda ev: '0 is returned after sleeping only if the sleep was interrupted with EOK (event arrived)', min_sites=1, what='return 0')
         K.check_at(R, P + '.K6', G, res, lambda ev: ev.kind == 'binop' and ev.e['op'] == '=' and ev.path(ev.e['l']) == 'errno' and ev.f.const(ev.e['r']) == 110,
-                   require=lambda st, ev: 'G:ret=F' in st,
+                   require=lambda st, ev: 'G:ret=F' in CN(st),
                    key_fn=lambda ev, short=short: '%s.K6:%s::wait_for_fd:ETIMEDOUT-only-if-slept-through' % (P, short),
                    describe=lambda ev: 'errno = ETIMEDOUT only when thread_usleep returned 0', min_sites=0, what='errno = ETIMEDOUT')
         K.check_at(R, P + '.K8', G, res, sleep, require=lambda st, ev: 'S:added' in st and 'S:paused' in st,
@@ -48,7 +51,7 @@ def wait_for_fd(R, prog):
                    describe=lambda ev: 'the thread sleeps registered and with work stealing paused (a vCPU-local engine holds its pointer)', min_sites=1, what='thread_usleep')
         K.check_at(R, P + '.K4', G, res, lambda ev: ev.kind == 'exit', require=lambda st, ev: 'S:paused' not in st,
                    key_fn=lambda ev, short=short: '%s.K4:%s::wait_for_fd:pause-restored' % (P, short), describe=lambda ev: 'work-stealing pause undone on every exit', min_sites=1)
-        K.check_at(R, P + '.K6', G, res, sleep, require=lambda st, ev: any(re.match(r'^G:ret < 0=F$', k) for k in st),
+        K.check_at(R, P + '.K6', G, res, sleep, require=lambda st, ev: 'G:ret < 0=F' in CN(st),
                    key_fn=lambda ev, short=short: '%s.K6:%s::wait_for_fd:sleep-only-if-registered' % (P, short), describe=lambda ev: 'sleeps only after add_interest succeeded', min_sites=1)
 
 
@@ -77,7 +80,8 @@ def level_engine(R, prog):
                    key_fn=lambda ev, n=n: '%s.K6:EventEngineEPoll::wait_for_events#%d:fire-%s-only-if-reported-and-registered' % (P, n, (ev.arg_show(0) or '?').split('.')[-1]),
                    describe=lambda ev: 'waiter %s is fired only if the kernel reported that direction and it is still registered' % ev.arg_show(0), min_sites=3, what='datacb')
         K.check_at(R, P + '.K6', G, res, lambda ev: ev.kind == 'call' and ev.callee() == E + '::rm_interest',
-                   require=lambda st, ev: any(re.match(r'^G:\(.+\.interests & 32768\)=T$', k) for k in st) and 'G:events=T' in st,
+                   require=lambda st, ev, f=f: any(re.match(r'^G:\(.+\.interests & 32768\)=T$', k) for k in st) and
+                   any(('G:%s=T' % n) in st and re.search(r'(?<![\w.>])%s(?!\w)' % re.escape(n), ev.arg_show(0) or '') for n in K.locals_defined_only_by(f, r'^(0|<compound>)$')),
                    key_fn=lambda ev, n=n: '%s.K6:EventEngineEPoll::wait_for_events#%d:disarm-only-fired-oneshot' % (P, n),
                    describe=lambda ev: 'rm_interest(events) only for a one-shot entry and only the fired directions', min_sites=1, what='rm_interest')
         K.check_at(R, P + '.K6', G, res, lambda ev: ev.kind == 'call' and ev.e.get('op') == '[]' and (ev.recv_path() or '').endswith('_inflight_events'),
@@ -86,24 +90,51 @@ def level_engine(R, prog):
                    describe=lambda ev: 'the fd reported by the kernel indexes the table only if it is inside it', min_sites=1, what='_inflight_events[fd]')
     G = K.build(R, prog, E + '::add_interest')
     res = an.run(G, [an.GuardTracker(lambda k: True)])
+    pe = K.param(G.root, 0)
+    rets = K.locals_assigned_from_call(G.root, r'::ctl$')
     rec = lambda ev: ev.kind == 'binop' and ev.e['op'] in ('=', '|=') and re.search(r'_inflight_events\[.*\]\.(reader_data|writer_data|error_data|interests)$', ev.path(ev.e['l']) or '')
     K.check_at(R, P + '.K6', G, res, rec,
-               require=lambda st, ev: 'G:ret=F' in st or any(re.match(r'^G:this->ctl\(.*\) < 0=F$', k) for k in st),
+               require=lambda st, ev: any(('G:%s=F' % r) in st for r in rets) or any(re.match(r'^G:this->ctl\(.*\) < 0=F$', k) for k in st),
                key_fn=lambda ev: P + '.K6:EventEngineEPoll::add_interest:record-only-after-ctl-succeeded',
                describe=lambda ev: 'the table records a waiter (%s) only after epoll_ctl succeeded' % (ev.path(ev.e['l']) or '').split('.')[-1], min_sites=4, what='entry update')
     K.check_at(R, P + '.K6', G, res, lambda ev: ev.kind == 'call' and ev.e.get('op') == '[]' and (ev.recv_path() or '').endswith('_inflight_events'),
-               require=lambda st, ev: 'G:e.fd < 0=F' in st,
+               require=lambda st, ev: ('G:%s.fd < 0=F' % pe) in st,
                key_fn=lambda ev: P + '.K6:EventEngineEPoll::add_interest:fd-validated', describe=lambda ev: 'fd validated before indexing the table', min_sites=1)
     G = K.build(R, prog, E + '::rm_interest')
     res = an.run(G, [an.GuardTracker(lambda k: True)])
+    pe = K.param(G.root, 0)
+    inter = K.locals_defined_only_by(G.root, r'^\(%s\.interests & \w+\)$' % re.escape(pe))    # the directions asked for AND registered
+    R.require(len(inter) >= 1, 'C10: rm_interest no longer computes the intersection of requested and registered interests')
     K.check_at(R, P + '.K6', G, res, lambda ev: ev.kind == 'call' and ev.e.get('op') == '[]' and (ev.recv_path() or '').endswith('_inflight_events'),
-               require=lambda st, ev: any(re.match(r'^G:.*e\.fd.* < this->_inflight_events\.size\(\)=T$', k) for k in st) and 'G:e.fd < 0=F' in st,
+               require=lambda st, ev: ('G:%s.fd < this->_inflight_events.size()=T' % pe) in st and ('G:%s.fd < 0=F' % pe) in st,
                key_fn=lambda ev: P + '.K6:EventEngineEPoll::rm_interest:fd-bounded', describe=lambda ev: 'fd bounded before indexing the table', min_sites=1)
     clr = lambda ev: ev.kind == 'binop' and ev.e['op'] == '=' and re.search(r'_inflight_events\[.*\]\.(reader_data|writer_data|error_data)$', ev.path(ev.e['l']) or '') and ev.f.const(ev.e['r']) == 0
+    # the kernel registration follows the table: the table drops directions without an epoll_ctl only when NO direction remains
+    ctl = lambda ev: ev.kind == 'call' and (ev.callee() or '').endswith('::ctl')
+    upd = lambda ev: ev.kind == 'binop' and ev.e['op'] in ('^=', '&=', '=') and re.search(r'_inflight_events\[.*\]\.interests$', ev.path(ev.e['l']) or '')
+    res2 = an.run(G, [an.GuardTracker(lambda k: True), an.SeenTracker([('ctl', ctl)])])
+
+    def rearmed(st, ev):
+        if 'S:ctl' in st:
+            return True
+        for k in st:
+            m = re.match(r'^G:(\w+) == 32768=T$', k)             # nothing but the ONE_SHOT flag remains
+            if m and m.group(1) in remains:
+                return True
+            m = re.match(r'^G:\((\w+) & (\d+)\)=F$', k)          # or: no direction bit remains
+            if m and m.group(1) in remains and int(m.group(2)) & 7 == 7:
+                return True
+        return False
+    remains = K.locals_defined_only_by(G.root, r'^\(\w+ \^ (%s)\)$' % '|'.join(re.escape(x) for x in sorted(inter)))
+    R.require(len(remains) >= 1, 'C10: rm_interest no longer computes the remaining interests')
+    K.check_at(R, P + '.K6', G, res2, upd, rearmed,
+               key_fn=lambda ev: P + '.K6:EventEngineEPoll::rm_interest:kernel-registration-follows-table',
+               describe=lambda ev: 'registered directions are dropped from the table without epoll_ctl (re-arming the one-shot fd for the remaining waiter) only if no direction remains',
+               min_sites=1, what='entry.interests update')
 
     def clr_ok(st, ev):
         fld = (ev.path(ev.e['l']) or '').split('.')[-1]
-        return ('G:(intersection & %d)=T' % EVBIT[fld]) in st
+        return any(('G:(%s & %d)=T' % (n, EVBIT[fld])) in st for n in inter)
     K.check_at(R, P + '.K6', G, res, clr, clr_ok,
                key_fn=lambda ev: '%s.K6:EventEngineEPoll::rm_interest:clear-only-removed-direction(%s)' % (P, (ev.path(ev.e['l']) or '').split('.')[-1]),
                describe=lambda ev: 'a waiter slot is cleared only for a direction that is being removed', min_sites=3, what='slot clear')
@@ -159,12 +190,16 @@ def skeletons(R, prog):
         wtcall = lambda ev, wt=wt: ev.kind == 'call' and ev.e.get('op') == '()' and ev.recv_path() == wt
         res = an.run(G, [an.GuardTracker(lambda k: True), an.SeenTracker([('waited', wtcall), ('io', iocall, ('waited',))])])
         lab = '%s#%d' % ('etdoio' if et else 'doio_once', n_et if et else n_once)
+        # `ret` = the local holding the result of the I/O callback, `e` = the snapshot of errno
+        rname = K.one(K.local_names_init_by(f, lambda x, i, f=f, io=io: x['k'] == 'call' and x.get('op') == '()' and f.path(x.get('recv')) == io) or
+                      K.locals_defined_only_by(f, r'^%s\(\)$' % re.escape(io)), 'I/O result local', f)
+        CN = K.canon({'ret': rname, 'e': K.one(K.locals_defined_only_by(f, r'^(\*__errno_location\(\)|errno)$'), 'errno snapshot', f)})
         K.check_at(R, P + '.K10', G, res, wtcall,
-                   require=lambda st, ev: 'G:ret < 0=T' in st and any((k.startswith('G:(') and 'e == 11)' in k and '||' in k and k.endswith('=T')) or k == 'G:e == 11=T' for k in st) and 'G:e == 4=F' in st,
+                   require=lambda st, ev, CN=CN: 'G:ret < 0=T' in CN(st) and any((k.startswith('G:(') and 'e == 11)' in k and '||' in k and k.endswith('=T')) or k == 'G:e == 11=T' for k in CN(st)) and 'G:e == 4=F' in CN(st),
                    key_fn=lambda ev, lab=lab: '%s.K10:%s:wait-only-on-EAGAIN' % (P, lab),
                    describe=lambda ev: 'the wait callback runs only for a failed call with EAGAIN/EWOULDBLOCK (not EINTR)', min_sites=1, what='waitcb()')
         K.check_at(R, P + '.K10', G, res, lambda ev: ev.kind == 'return' and ev.depth == 0,
-                   require=lambda st, ev: ev.path(ev.e['sub']) == 'ret' and not ('G:e == 4=T' in st and 'G:ret < 0=T' in st),
+                   require=lambda st, ev, CN=CN, rname=rname: ev.path(ev.e['sub']) == rname and not ('G:e == 4=T' in CN(st) and 'G:ret < 0=T' in CN(st)),
                    key_fn=lambda ev, lab=lab: '%s.K10:%s:returns-the-io-result-never-on-EINTR' % (P, lab),
                    describe=lambda ev: 'returns the result of the I/O call; EINTR never returns', min_sites=2, what='return ret')
         K.check_at(R, P + '.K10', G, res, iocall,
@@ -174,12 +209,16 @@ def skeletons(R, prog):
     for n, f in enumerate(prog.find('photon::net::doio_loop', all=True)[:3]):
         G = K.build_f(R, prog, f)
         res = an.run(G, [an.GuardTracker(lambda k: True)])
+        io = K.param(f, 0)
+        rname = K.one(K.locals_defined_only_by(f, r'^%s\(\)$' % re.escape(io)), 'I/O result local', f)
+        acc = K.one([ev.path(ev.e['l']) for _, _, ev in G.events() if ev.kind == 'binop' and ev.e['op'] == '+=' and ev.path(ev.e['r']) == rname], 'accumulator', f)
+        CN = K.canon({'ret': rname, 'n': acc})
         K.check_at(R, P + '.K10', G, res, lambda ev: ev.kind == 'return' and ev.depth == 0,
-                   require=lambda st, ev: (ev.path(ev.e['sub']) == 'ret' and 'G:ret < 0=T' in st) or (ev.path(ev.e['sub']) == 'n' and 'G:ret < 0=T' not in st),
+                   require=lambda st, ev, CN=CN, rname=rname, acc=acc: (ev.path(ev.e['sub']) == rname and 'G:ret < 0=T' in CN(st)) or (ev.path(ev.e['sub']) == acc and 'G:ret < 0=T' not in CN(st)),
                    key_fn=lambda ev, n=n: '%s.K10:doio_loop#%d:error-returns-error-else-total' % (P, n),
                    describe=lambda ev: 'an error is returned as is; otherwise the accumulated count', min_sites=2, what='returns')
-        K.check_at(R, P + '.K10', G, res, lambda ev: ev.kind == 'binop' and ev.e['op'] == '+=' and ev.path(ev.e['l']) == 'n',
-                   require=lambda st, ev: 'G:ret < 0=F' in st and 'G:ret=T' in st and ev.path(ev.e['r']) == 'ret',
+        K.check_at(R, P + '.K10', G, res, lambda ev, acc=acc: ev.kind == 'binop' and ev.e['op'] == '+=' and ev.path(ev.e['l']) == acc,
+                   require=lambda st, ev, CN=CN, rname=rname: 'G:ret < 0=F' in CN(st) and 'G:ret=T' in CN(st) and ev.path(ev.e['r']) == rname,
                    key_fn=lambda ev, n=n: '%s.K10:doio_loop#%d:accumulate-positive-only' % (P, n), describe=lambda ev: 'only positive transfer counts are accumulated', min_sites=1)
     # read-side syscalls wait for readable, write-side for writable, on the same fd with the caller's timeout
     RD = {'read', 'readv', 'recv', 'recvmsg', 'accept4', 'accept'}
@@ -203,7 +242,7 @@ def skeletons(R, prog):
                     sfd = lio.path(sysc[0]['args'][0])
                     wfd = lwt.path(waits[0]['args'][0])
                     tmo = lwt.path(waits[0]['args'][1])
-                    ok = ((s in RD and w == 'readable') or (s in WR and w == 'writable')) and sfd == wfd and tmo == 'timeout'
+                    ok = ((s in RD and w == 'readable') or (s in WR and w == 'writable')) and sfd == wfd and tmo in [f.decls[d]['name'] for d in f.j['params'] if 'Timeout' in (f.decls[d].get('type') or '')]
                     (R.held if ok else R.violated)(P + '.K10', key, f.id, site, '%s(%s) pairs with wait_for_fd_%s(%s, %s)' % (s, sfd, w, wfd, tmo))
                 elif not sysc and not waits:
                     R.exception(P + '.K10', f.nname, 'not a byte-stream primitive (error-queue polling); outside the pairing rule')
